@@ -5,11 +5,11 @@ for n in 1 2; do
   src=$out/$p/$n
   [ -f $src/patch.diff ] || { echo "## $p/$n missing"; continue; }
   echo "######## $p/$n"
-  /verif/tools/seedeval2.sh $src $p "$@" > /tmp/evalbatch-$p-$n.log 2>&1
+  SEEDLOG_TAG=$p-$n /verif/tools/seedeval2.sh $src $p "$@" > /tmp/evalbatch-$p-$n.log 2>&1
   grep -A1 "demo without\|demo with patch" /tmp/evalbatch-$p-$n.log | grep -v "^--" | tr '\n' ' '; echo
   grep -A3 "suite with patch" /tmp/evalbatch-$p-$n.log | grep "^FAIL\|^---" | head -3
   for c in $p "$@"; do
-    echo "  $c: $(grep -A1 "check $c quick" /tmp/evalbatch-$p-$n.log | tail -1) violations=$(grep -c '^VIOLATION' /tmp/seed-check-$c.log)"
-    grep '^  symptom' /tmp/seed-check-$c.log | sort | uniq -c | sort -rn | head -3 | cut -c1-220
+    echo "  $c: $(grep -A1 "check $c quick" /tmp/evalbatch-$p-$n.log | tail -1) violations=$(grep -c '^VIOLATION' /tmp/seed-check-$c-$p-$n.log)"
+    grep '^  symptom' /tmp/seed-check-$c-$p-$n.log | sort | uniq -c | sort -rn | head -3 | cut -c1-220
   done
 done
